@@ -83,9 +83,18 @@ def run_case(case):
         cnt[k] = cnt.get(k, 0) + int(n)
 
     psets = [params, gen.perturb_params(rng, params, desc.get("frozen_params", ())), gen.perturb_params(rng, params, desc.get("frozen_params", ()))]
+    if ref.stoch:
+        # differs from the base set ONLY in the transition arrays
+        psets[2] = {**params, "shocks": gen.perturb_params(rng, params)["shocks"]}
+    else:
+        # differs from the base set only in one leaf
+        psets[2] = {**params, "beta": round(params["beta"] * 0.83, 4)}
     inits = [gen.gen_initial_states(rng, ref, 8), gen.gen_initial_states(rng, ref, 5)]
     seeds = [3, 77]
     sim_args = [{"params": psets[int(rng.integers(0, 3))], "init": {k: np.asarray(v).tolist() for k, v in inits[i % 2].items()}, "seed": seeds[(i // 2) % 2]} for i in range(3)]
+    # arg sets 0 and 1 differ only in the minimally changed parameter set (same agents, same seed)
+    sim_args[0] = {**sim_args[0], "params": psets[0]}
+    sim_args[1] = {**sim_args[0], "params": psets[2]}
     jit_solve = not case.get("jit_false_solve")
     spec = {"desc": desc, "solve_args": psets, "sim_args": sim_args, "jit": jit_solve}
     rundir = os.path.join(bootstrap.VERIF, ".run", f"c09_{os.getpid()}_{case['index']}")
@@ -114,7 +123,7 @@ def run_case(case):
             else:
                 history.append(("sim", int(rng.integers(0, 3))))
         # guarantee repeats and interleaving
-        history += [history[0], history[1 % len(history)], ("solve", 0), ("sim", 0), ("solve", 0)]
+        history += [history[0], history[1 % len(history)], ("solve", 0), ("sim", 0), ("sim", 1), ("sim", 0), ("solve", 0), ("solve", 2), ("solve", 0)]
         for h, (kind, i) in enumerate(history):
             leaf = leafs[h % 4]
             m_before = snapshot_model(model)
